@@ -22,6 +22,7 @@ mod probe;
 mod report;
 mod selftest;
 mod sim;
+mod validate_rayon;
 
 use serde_json::Value;
 
@@ -73,6 +74,7 @@ fn main() {
                 }
             }
         }
+        Some("validate-rayon") => validate_rayon::run(seed),
         Some("selftest") => selftest::run(seed, args.get(1).and_then(|s| s.parse().ok()).unwrap_or(40)),
         Some("digest") => selftest::digest_main(seed, args.get(1).and_then(|s| s.parse().ok()).unwrap_or(40)),
         Some("C10") => c10::run(args.get(1).map(|s| s.as_str()).unwrap_or("quick"), seed),
